@@ -159,6 +159,37 @@ class SymArr:
         self._inv = inv  # storage idx -> (cond, view idx)
         self.mask = mask  # compressed view: (mask_key, mask_fn over own idx)
 
+    # ---------------------------------------------------------------- numpy protocols
+    def __array_function__(self, func, types, args, kwargs):
+        """Real numpy functions called on a proxy (e.g. a default argument `reduction=np.mean`
+        captured before patching) are routed to the prelude entry of the same name."""
+        from .prelude_np import NP
+
+        name = getattr(func, "__name__", None)
+        impl = getattr(type(NP), name, None) if name else None
+        if impl is None:
+            raise Unsupported("numpy.%s has no assumed contract in the prelude" % name)
+        return getattr(NP, name)(*args, **kwargs)
+
+    def __array_ufunc__(self, ufunc, method, *inputs, **kwargs):
+        from .prelude_np import NP
+
+        name = getattr(ufunc, "__name__", None)
+        if method != "__call__" or not hasattr(type(NP), name):
+            raise Unsupported("numpy ufunc %s.%s on a proxy" % (name, method))
+        return getattr(NP, name)(*inputs, **kwargs)
+
+    def __array__(self, *a, **k):
+        raise Unsupported("a proxy array leaked into a real numpy routine (np.asarray on a SymArr)")
+
+    np_ref = None
+    concrete_data = None
+
+    def __getattr__(self, name):
+        # AttributeError (not Unsupported) so that hasattr() probes behave; an unmodelled ndarray
+        # method used by the code surfaces as an engine gap (verdict: undecided), never as a finding
+        raise AttributeError("ndarray.%s is not modelled by the SymArr proxy" % name)
+
     # ---------------------------------------------------------------- basics
     @property
     def ndim(self):
@@ -827,11 +858,23 @@ def reindex(idx, from_shape, to_shape):
             return (idx[0],)
         if not is_sym(from_shape[0]) and from_shape[0] == 1:
             return (idx[1],)
+    flat = flat_index(idx, from_shape)
+    return unflatten(flat, to_shape, hint=(idx, from_shape))
+
+
+def flat_index(idx, shape):
+    """C-order flat position (Horner form) of a multi-index; for symbolic operands the bound
+    0 <= flat < prod(shape) is stated as a fact (true arithmetic, saves a non-linear step)."""
     flat = 0
-    for i, n in zip(idx, from_shape):
+    for i, n in zip(idx, shape):
         flat = flat * n + i
     flat = lift(flat)
-    return unflatten(flat, to_shape, hint=(idx, from_shape))
+    if is_sym(flat) and len(shape) >= 2:
+        c = ctx()
+        inb = and_(*[and_(0 <= i, i < n) for i, n in zip(idx, shape)])
+        c.assume(implies(inb, and_(flat >= 0, flat < _prod(shape))))
+        c.used_axioms.add("C-order flat index of an in-bounds multi-index lies in [0, size)")
+    return flat
 
 
 def unflatten(flat, shape, hint=None):
@@ -1043,6 +1086,10 @@ def as_array(x):
     from .prelude_pd import SymSeries
 
     if isinstance(x, SymSeries):
+        return x.values
+    from .prelude_xr import SymCoord, SymDataArray
+
+    if isinstance(x, (SymCoord, SymDataArray)):
         return x.values
     raise Unsupported("cannot convert %r to an array" % type(x))
 
